@@ -16,7 +16,16 @@ use std::collections::BTreeMap;
 const P: &str = "C11";
 
 const SG: [u8; 8] = [1, 3, 10, 20, 21, 30, 40, 110];
-const TYPES: [PType; 8] = [PType::Binary, PType::DoubleBit, PType::BinaryOutputStatus, PType::Counter, PType::FrozenCounter, PType::Analog, PType::AnalogOutputStatus, PType::OctetString];
+const TYPES: [PType; 8] = [
+    PType::Binary,
+    PType::DoubleBit,
+    PType::BinaryOutputStatus,
+    PType::Counter,
+    PType::FrozenCounter,
+    PType::Analog,
+    PType::AnalogOutputStatus,
+    PType::OctetString,
+];
 
 #[derive(Clone, Debug, PartialEq)]
 struct PV {
@@ -46,13 +55,46 @@ fn svars(t: usize) -> &'static [u8] {
 fn add(db: &mut Database, t: usize, index: u16, svar: u8, class: Option<EventClass>) {
     match t {
         0 => {
-            db.add(index, class, BinaryInputConfig::new(if svar == 1 { StaticBinaryInputVariation::Group1Var1 } else { StaticBinaryInputVariation::Group1Var2 }, EventBinaryInputVariation::Group2Var2));
+            db.add(
+                index,
+                class,
+                BinaryInputConfig::new(
+                    if svar == 1 {
+                        StaticBinaryInputVariation::Group1Var1
+                    } else {
+                        StaticBinaryInputVariation::Group1Var2
+                    },
+                    EventBinaryInputVariation::Group2Var2,
+                ),
+            );
         }
         1 => {
-            db.add(index, class, DoubleBitBinaryInputConfig::new(if svar == 1 { StaticDoubleBitBinaryInputVariation::Group3Var1 } else { StaticDoubleBitBinaryInputVariation::Group3Var2 }, EventDoubleBitBinaryInputVariation::Group4Var2));
+            db.add(
+                index,
+                class,
+                DoubleBitBinaryInputConfig::new(
+                    if svar == 1 {
+                        StaticDoubleBitBinaryInputVariation::Group3Var1
+                    } else {
+                        StaticDoubleBitBinaryInputVariation::Group3Var2
+                    },
+                    EventDoubleBitBinaryInputVariation::Group4Var2,
+                ),
+            );
         }
         2 => {
-            db.add(index, class, BinaryOutputStatusConfig::new(if svar == 1 { StaticBinaryOutputStatusVariation::Group10Var1 } else { StaticBinaryOutputStatusVariation::Group10Var2 }, EventBinaryOutputStatusVariation::Group11Var2));
+            db.add(
+                index,
+                class,
+                BinaryOutputStatusConfig::new(
+                    if svar == 1 {
+                        StaticBinaryOutputStatusVariation::Group10Var1
+                    } else {
+                        StaticBinaryOutputStatusVariation::Group10Var2
+                    },
+                    EventBinaryOutputStatusVariation::Group11Var2,
+                ),
+            );
         }
         3 => {
             let v = match svar {
@@ -61,7 +103,11 @@ fn add(db: &mut Database, t: usize, index: u16, svar: u8, class: Option<EventCla
                 5 => StaticCounterVariation::Group20Var5,
                 _ => StaticCounterVariation::Group20Var6,
             };
-            db.add(index, class, CounterConfig::new(v, EventCounterVariation::Group22Var5, 0));
+            db.add(
+                index,
+                class,
+                CounterConfig::new(v, EventCounterVariation::Group22Var5, 0),
+            );
         }
         4 => {
             let v = match svar {
@@ -72,7 +118,11 @@ fn add(db: &mut Database, t: usize, index: u16, svar: u8, class: Option<EventCla
                 9 => StaticFrozenCounterVariation::Group21Var9,
                 _ => StaticFrozenCounterVariation::Group21Var10,
             };
-            db.add(index, class, FrozenCounterConfig::new(v, EventFrozenCounterVariation::Group23Var5, 0));
+            db.add(
+                index,
+                class,
+                FrozenCounterConfig::new(v, EventFrozenCounterVariation::Group23Var5, 0),
+            );
         }
         5 => {
             let v = match svar {
@@ -83,7 +133,11 @@ fn add(db: &mut Database, t: usize, index: u16, svar: u8, class: Option<EventCla
                 5 => StaticAnalogInputVariation::Group30Var5,
                 _ => StaticAnalogInputVariation::Group30Var6,
             };
-            db.add(index, class, AnalogInputConfig::new(v, EventAnalogInputVariation::Group32Var3, 0.0));
+            db.add(
+                index,
+                class,
+                AnalogInputConfig::new(v, EventAnalogInputVariation::Group32Var3, 0.0),
+            );
         }
         6 => {
             let v = match svar {
@@ -92,7 +146,15 @@ fn add(db: &mut Database, t: usize, index: u16, svar: u8, class: Option<EventCla
                 3 => StaticAnalogOutputStatusVariation::Group40Var3,
                 _ => StaticAnalogOutputStatusVariation::Group40Var4,
             };
-            db.add(index, class, AnalogOutputStatusConfig::new(v, EventAnalogOutputStatusVariation::Group42Var3, 0.0));
+            db.add(
+                index,
+                class,
+                AnalogOutputStatusConfig::new(
+                    v,
+                    EventAnalogOutputStatusVariation::Group42Var3,
+                    0.0,
+                ),
+            );
         }
         _ => {
             db.add(index, class, OctetStringConfig);
@@ -101,13 +163,35 @@ fn add(db: &mut Database, t: usize, index: u16, svar: u8, class: Option<EventCla
 }
 
 /// write a new unique value for a point; returns the mirror entry
-fn update(sim: &OutSim, r: &mut Rng, t: usize, index: u16, counter: &mut u64, svar: u8, events: bool) -> PV {
+fn update(
+    sim: &OutSim,
+    r: &mut Rng,
+    t: usize,
+    index: u16,
+    counter: &mut u64,
+    svar: u8,
+    events: bool,
+) -> PV {
     *counter += 1;
     let time = 5_000_000 + *counter;
-    let flags: u8 = if r.chance(2, 3) { 0x01 } else { 0x01 | (r.u8() & 0x1E) };
-    let opt = if events { UpdateOptions::detect_event() } else { UpdateOptions::no_event() };
+    let flags: u8 = if r.chance(2, 3) {
+        0x01
+    } else {
+        0x01 | (r.u8() & 0x1E)
+    };
+    let opt = if events {
+        UpdateOptions::detect_event()
+    } else {
+        UpdateOptions::no_event()
+    };
     let tm = Time::synchronized(time);
-    let mut pv = PV { num: 0.0, bytes: vec![], flags, time, svar };
+    let mut pv = PV {
+        num: 0.0,
+        bytes: vec![],
+        flags,
+        time,
+        svar,
+    };
     match t {
         0 => {
             let v = *counter % 2 == 0;
@@ -117,13 +201,30 @@ fn update(sim: &OutSim, r: &mut Rng, t: usize, index: u16, counter: &mut u64, sv
         1 => {
             let v = (*counter % 4) as u8;
             pv.num = v as f64;
-            let d = [DoubleBit::Intermediate, DoubleBit::DeterminedOff, DoubleBit::DeterminedOn, DoubleBit::Indeterminate][v as usize];
-            sim.db(|db| db.update(index, &DoubleBitBinaryInput::new(d, Flags::new(flags), tm), opt));
+            let d = [
+                DoubleBit::Intermediate,
+                DoubleBit::DeterminedOff,
+                DoubleBit::DeterminedOn,
+                DoubleBit::Indeterminate,
+            ][v as usize];
+            sim.db(|db| {
+                db.update(
+                    index,
+                    &DoubleBitBinaryInput::new(d, Flags::new(flags), tm),
+                    opt,
+                )
+            });
         }
         2 => {
             let v = *counter % 2 == 1;
             pv.num = v as u8 as f64;
-            sim.db(|db| db.update(index, &BinaryOutputStatus::new(v, Flags::new(flags), tm), opt));
+            sim.db(|db| {
+                db.update(
+                    index,
+                    &BinaryOutputStatus::new(v, Flags::new(flags), tm),
+                    opt,
+                )
+            });
         }
         3 => {
             let v = (*counter % 60_000) as u32;
@@ -143,7 +244,13 @@ fn update(sim: &OutSim, r: &mut Rng, t: usize, index: u16, counter: &mut u64, sv
         6 => {
             let v = (*counter % 30_000) as f64;
             pv.num = v;
-            sim.db(|db| db.update(index, &AnalogOutputStatus::new(v, Flags::new(flags), tm), opt));
+            sim.db(|db| {
+                db.update(
+                    index,
+                    &AnalogOutputStatus::new(v, Flags::new(flags), tm),
+                    opt,
+                )
+            });
         }
         _ => {
             let n = r.range(1, 6) as usize;
@@ -167,17 +274,28 @@ enum Hdr {
 /// does the wire object agree with the snapshot value?
 fn agrees(m: &Meas, pv: &PV, t: usize, requested_var: u8) -> Result<(), String> {
     // variation: requested (or configured default) or its promotion from a packed format
-    let want = if requested_var != 0 { requested_var } else { pv.svar };
+    let want = if requested_var != 0 {
+        requested_var
+    } else {
+        pv.svar
+    };
     let packed = matches!(t, 0 | 1 | 2) && want == 1;
     let ok_var = if t == 7 {
         true
     } else if packed {
-        if pv.flags == 0x01 { m.var == 1 } else { m.var == 2 }
+        if pv.flags == 0x01 {
+            m.var == 1
+        } else {
+            m.var == 2
+        }
     } else {
         m.var == want
     };
     if !ok_var {
-        return Err(format!("variation g{}v{} (requested {requested_var}, configured {}, flags {:#04x})", m.group, m.var, pv.svar, pv.flags));
+        return Err(format!(
+            "variation g{}v{} (requested {requested_var}, configured {}, flags {:#04x})",
+            m.group, m.var, pv.svar, pv.flags
+        ));
     }
     let v_ok = match &m.val {
         Val::Bool(b) => (*b as u8 as f64) == pv.num,
@@ -238,7 +356,17 @@ async fn scenario(a: &ShardArgs, idx: u64) {
     let layout2 = layout.clone();
     let mut sim = OutSim::start_with(cfg.clone(), |db| {
         for (t, i, sv) in &layout2 {
-            add(db, *t, *i, *sv, if with_events { Some(EventClass::Class1) } else { None });
+            add(
+                db,
+                *t,
+                *i,
+                *sv,
+                if with_events {
+                    Some(EventClass::Class1)
+                } else {
+                    None
+                },
+            );
         }
     })
     .await;
@@ -257,8 +385,18 @@ async fn scenario(a: &ShardArgs, idx: u64) {
             P,
             &format!("C11.{rule}"),
             sig,
-            J::obj(vec![("why", J::s(why)), ("config", cfg.to_json()), ("history", J::arr(hist.iter().rev().take(24).rev().cloned()))]),
-            J::obj(vec![("check", J::s("c11")), ("seed", J::U(a.seed)), ("shard", J::U(a.shard)), ("nshards", J::U(a.nshards)), ("scenario", J::U(idx))]),
+            J::obj(vec![
+                ("why", J::s(why)),
+                ("config", cfg.to_json()),
+                ("history", J::arr(hist.iter().rev().take(24).rev().cloned())),
+            ]),
+            J::obj(vec![
+                ("check", J::s("c11")),
+                ("seed", J::U(a.seed)),
+                ("shard", J::U(a.shard)),
+                ("nshards", J::U(a.nshards)),
+                ("scenario", J::U(idx)),
+            ]),
         );
     };
     let mut seq = r.below(16) as u8;
@@ -283,16 +421,28 @@ async fn scenario(a: &ShardArgs, idx: u64) {
                 }
                 1 => {
                     let t = r.usize_below(8);
-                    let v = if r.bool() || t == 7 { 0 } else { *r.pick(svars(t)) };
+                    let v = if r.bool() || t == 7 {
+                        0
+                    } else {
+                        *r.pick(svars(t))
+                    };
                     b = b.all(SG[t], v);
                     hdrs.push(Hdr::Typed(t, v, None));
                 }
                 _ => {
                     let t = r.usize_below(8);
-                    let v = if r.bool() || t == 7 { 0 } else { *r.pick(svars(t)) };
+                    let v = if r.bool() || t == 7 {
+                        0
+                    } else {
+                        *r.pick(svars(t))
+                    };
                     let lo = r.range(0, 30) as u16;
                     let hi = lo + r.range(0, 40) as u16;
-                    let (lo, hi) = if r.chance(1, 12) { (65530, 65535) } else { (lo, hi) };
+                    let (lo, hi) = if r.chance(1, 12) {
+                        (65530, 65535)
+                    } else {
+                        (lo, hi)
+                    };
                     if hi < 256 && r.bool() {
                         b = b.range8(SG[t], v, lo as u8, hi as u8, &[]);
                     } else {
@@ -304,7 +454,12 @@ async fn scenario(a: &ShardArgs, idx: u64) {
         }
         let rd = b.done();
         let snapshot = mirror.clone();
-        hist.push(format!("t={} -> READ seq={seq} {:?} {}", sim.now(), hdrs, hex(&rd)));
+        hist.push(format!(
+            "t={} -> READ seq={seq} {:?} {}",
+            sim.now(),
+            hdrs,
+            hex(&rd)
+        ));
         out::eval(1);
         let rx = sim.request(&rd).await;
         let mut frags: Vec<Vec<u8>> = vec![];
@@ -314,7 +469,12 @@ async fn scenario(a: &ShardArgs, idx: u64) {
                 if cur.is_none() {
                     cur = Some(f.to_vec());
                 } else {
-                    viol("series_not_gated", "first", "more than one fragment sent before any confirm".into(), &hist);
+                    viol(
+                        "series_not_gated",
+                        "first",
+                        "more than one fragment sent before any confirm".into(),
+                        &hist,
+                    );
                 }
             }
         }
@@ -326,16 +486,40 @@ async fn scenario(a: &ShardArgs, idx: u64) {
                 Some(x) => x,
                 None => break,
             };
-            hist.push(format!("t={} <- frag {k} ctrl={:02x} len={}", sim.now(), fr.ctrl, f.len()));
+            hist.push(format!(
+                "t={} <- frag {k} ctrl={:02x} len={}",
+                sim.now(),
+                fr.ctrl,
+                f.len()
+            ));
             // structure
             if fr.seq() != (seq + (k as u8 - 1)) & 15 {
-                viol("series_numbering", "seq", format!("fragment {k} has sequence {} (request {seq})", fr.seq()), &hist);
+                viol(
+                    "series_numbering",
+                    "seq",
+                    format!("fragment {k} has sequence {} (request {seq})", fr.seq()),
+                    &hist,
+                );
             }
             if fr.fir() != (k == 1) {
-                viol("series_fir", if k == 1 { "first-without-fir" } else { "later-with-fir" }, format!("fragment {k} FIR={}", fr.fir()), &hist);
+                viol(
+                    "series_fir",
+                    if k == 1 {
+                        "first-without-fir"
+                    } else {
+                        "later-with-fir"
+                    },
+                    format!("fragment {k} FIR={}", fr.fir()),
+                    &hist,
+                );
             }
             if !fr.fin() && !fr.con() {
-                viol("series_con", "nonfinal-without-con", format!("non-final fragment {k} does not request confirmation"), &hist);
+                viol(
+                    "series_con",
+                    "nonfinal-without-con",
+                    format!("non-final fragment {k} does not request confirmation"),
+                    &hist,
+                );
             }
             frags.push(f.clone());
             if !fr.con() {
@@ -354,7 +538,12 @@ async fn scenario(a: &ShardArgs, idx: u64) {
                 }
                 settle().await;
                 if sim.collect().iter().any(|x| x.fragment().is_some()) {
-                    viol("series_not_gated", "update", "fragment sent after an update without a confirm".into(), &hist);
+                    viol(
+                        "series_not_gated",
+                        "update",
+                        "fragment sent after an update without a confirm".into(),
+                        &hist,
+                    );
                 }
                 out::count("updates_between_fragments", 1);
             }
@@ -363,23 +552,45 @@ async fn scenario(a: &ShardArgs, idx: u64) {
                 0 | 1 => {
                     if act == 1 {
                         // wrong confirm first: nothing may happen
-                        let wrong = ra::B::confirm((fr.seq() + r.range(1, 15) as u8) & 15, false).done();
+                        let wrong =
+                            ra::B::confirm((fr.seq() + r.range(1, 15) as u8) & 15, false).done();
                         let rx = sim.request(&wrong).await;
                         if rx.iter().any(|x| x.fragment().is_some()) {
-                            viol("series_not_gated", "wrong-confirm", "next fragment sent after a confirm with the wrong sequence".into(), &hist);
+                            viol(
+                                "series_not_gated",
+                                "wrong-confirm",
+                                "next fragment sent after a confirm with the wrong sequence".into(),
+                                &hist,
+                            );
                         }
                         out::count("wrong_confirms", 1);
                     }
                     let rx = sim.request(&ra::B::confirm(fr.seq(), false).done()).await;
-                    let next: Vec<Vec<u8>> = rx.iter().filter_map(|x| x.fragment().map(|f| f.to_vec())).collect();
+                    let next: Vec<Vec<u8>> = rx
+                        .iter()
+                        .filter_map(|x| x.fragment().map(|f| f.to_vec()))
+                        .collect();
                     if fr.fin() {
                         if !next.is_empty() {
-                            viol("series_continues", "after-fin", "fragment sent after the confirm of the final fragment".into(), &hist);
+                            viol(
+                                "series_continues",
+                                "after-fin",
+                                "fragment sent after the confirm of the final fragment".into(),
+                                &hist,
+                            );
                         }
                         break;
                     }
                     if next.len() != 1 {
-                        viol("series_gating", "after-confirm", format!("{} fragments after the confirm of non-final fragment {k}", next.len()), &hist);
+                        viol(
+                            "series_gating",
+                            "after-confirm",
+                            format!(
+                                "{} fragments after the confirm of non-final fragment {k}",
+                                next.len()
+                            ),
+                            &hist,
+                        );
                         ended_by = "stalled";
                         break;
                     }
@@ -388,12 +599,22 @@ async fn scenario(a: &ShardArgs, idx: u64) {
                 2 => {
                     sim.advance(cfg.confirm_timeout_ms).await;
                     if sim.collect().iter().any(|x| x.fragment().is_some()) {
-                        viol("series_continues", "after-timeout", "fragment sent after the confirm timeout".into(), &hist);
+                        viol(
+                            "series_continues",
+                            "after-timeout",
+                            "fragment sent after the confirm timeout".into(),
+                            &hist,
+                        );
                     }
                     // a late confirm must not resume it
                     let rx = sim.request(&ra::B::confirm(fr.seq(), false).done()).await;
                     if rx.iter().any(|x| x.fragment().is_some()) {
-                        viol("series_continues", "late-confirm", "fragment sent after a late confirm".into(), &hist);
+                        viol(
+                            "series_continues",
+                            "late-confirm",
+                            "fragment sent after a late confirm".into(),
+                            &hist,
+                        );
                     }
                     ended_by = "timeout";
                     out::count("series_ended_by_timeout", 1);
@@ -423,7 +644,9 @@ async fn scenario(a: &ShardArgs, idx: u64) {
             continue;
         }
         if ended_by != "complete" && ended_by != "stalled" {
-            hist.push(format!("(series ended by {ended_by} after {k} fragment(s))"));
+            hist.push(format!(
+                "(series ended by {ended_by} after {k} fragment(s))"
+            ));
         }
         // content: concatenation of the static objects of all fragments
         let mut objs: Vec<Meas> = vec![];
@@ -433,7 +656,12 @@ async fn scenario(a: &ShardArgs, idx: u64) {
             match ra::decode_response_measurements(&fr.objects) {
                 Ok((m, _)) => objs.extend(m.into_iter().filter(|m| !m.is_event)),
                 Err(e) => {
-                    viol("undecodable", "fragment", format!("fragment does not decode: {e:?}"), &hist);
+                    viol(
+                        "undecodable",
+                        "fragment",
+                        format!("fragment does not decode: {e:?}"),
+                        &hist,
+                    );
                     decode_ok = false;
                 }
             }
@@ -448,12 +676,35 @@ async fn scenario(a: &ShardArgs, idx: u64) {
         'headers: for h in &hdrs {
             let groups: Vec<(usize, u8, Vec<u16>)> = match h {
                 Hdr::Class0 => (0..8)
-                    .filter(|t| if *t == 7 { cfg.class_zero_octets } else { cfg.class_zero[*t] })
-                    .map(|t| (t, 0u8, snapshot.keys().filter(|k| k.0 == t).map(|k| k.1).collect::<Vec<u16>>()))
+                    .filter(|t| {
+                        if *t == 7 {
+                            cfg.class_zero_octets
+                        } else {
+                            cfg.class_zero[*t]
+                        }
+                    })
+                    .map(|t| {
+                        (
+                            t,
+                            0u8,
+                            snapshot
+                                .keys()
+                                .filter(|k| k.0 == t)
+                                .map(|k| k.1)
+                                .collect::<Vec<u16>>(),
+                        )
+                    })
                     .filter(|g| !g.2.is_empty())
                     .collect(),
                 Hdr::Typed(t, v, range) => {
-                    let idxs: Vec<u16> = snapshot.keys().filter(|k| k.0 == *t && range.map(|(lo, hi)| k.1 >= lo && k.1 <= hi).unwrap_or(true)).map(|k| k.1).collect();
+                    let idxs: Vec<u16> = snapshot
+                        .keys()
+                        .filter(|k| {
+                            k.0 == *t
+                                && range.map(|(lo, hi)| k.1 >= lo && k.1 <= hi).unwrap_or(true)
+                        })
+                        .map(|k| k.1)
+                        .collect();
                     if idxs.is_empty() {
                         vec![]
                     } else {
@@ -466,7 +717,19 @@ async fn scenario(a: &ShardArgs, idx: u64) {
             while !remaining.is_empty() {
                 if pos >= objs.len() {
                     if complete {
-                        viol("incomplete", &format!("{h:?}").chars().take(12).collect::<String>(), format!("series complete but points of {:?} are missing (got {} objects)", remaining.iter().map(|g| (g.0, g.2.len())).collect::<Vec<_>>(), objs.len()), &hist);
+                        viol(
+                            "incomplete",
+                            &format!("{h:?}").chars().take(12).collect::<String>(),
+                            format!(
+                                "series complete but points of {:?} are missing (got {} objects)",
+                                remaining
+                                    .iter()
+                                    .map(|g| (g.0, g.2.len()))
+                                    .collect::<Vec<_>>(),
+                                objs.len()
+                            ),
+                            &hist,
+                        );
                         ok = false;
                     }
                     break 'headers;
@@ -474,7 +737,17 @@ async fn scenario(a: &ShardArgs, idx: u64) {
                 let t_here = TYPES.iter().position(|x| *x == objs[pos].ptype);
                 let gi = remaining.iter().position(|g| Some(g.0) == t_here);
                 let Some(gi) = gi else {
-                    viol("unexpected_object", "type", format!("object {pos} is {:?}[{}], expected one of types {:?}", objs[pos].ptype, objs[pos].index, remaining.iter().map(|g| g.0).collect::<Vec<_>>()), &hist);
+                    viol(
+                        "unexpected_object",
+                        "type",
+                        format!(
+                            "object {pos} is {:?}[{}], expected one of types {:?}",
+                            objs[pos].ptype,
+                            objs[pos].index,
+                            remaining.iter().map(|g| g.0).collect::<Vec<_>>()
+                        ),
+                        &hist,
+                    );
                     ok = false;
                     break 'headers;
                 };
@@ -482,18 +755,36 @@ async fn scenario(a: &ShardArgs, idx: u64) {
                 for want_i in idxs {
                     if pos >= objs.len() {
                         if complete {
-                            viol("incomplete", "points-missing", format!("series complete but type {t} index {want_i} was not reported"), &hist);
+                            viol(
+                                "incomplete",
+                                "points-missing",
+                                format!(
+                                    "series complete but type {t} index {want_i} was not reported"
+                                ),
+                                &hist,
+                            );
                             ok = false;
                         }
                         break 'headers;
                     }
                     let m = &objs[pos];
-                    if TYPES.iter().position(|x| *x == m.ptype) != Some(t) || m.index != want_i as u32 {
-                        let dup = objs[..pos].iter().any(|o| o.ptype == m.ptype && o.index == m.index);
+                    if TYPES.iter().position(|x| *x == m.ptype) != Some(t)
+                        || m.index != want_i as u32
+                    {
+                        let dup = objs[..pos]
+                            .iter()
+                            .any(|o| o.ptype == m.ptype && o.index == m.index);
                         viol(
-                            if dup { "point_reported_twice" } else { "wrong_point" },
+                            if dup {
+                                "point_reported_twice"
+                            } else {
+                                "wrong_point"
+                            },
                             &format!("t{t}"),
-                            format!("object {pos} is {:?}[{}], expected type {t} index {want_i}", m.ptype, m.index),
+                            format!(
+                                "object {pos} is {:?}[{}], expected type {t} index {want_i}",
+                                m.ptype, m.index
+                            ),
                             &hist,
                         );
                         ok = false;
@@ -501,8 +792,20 @@ async fn scenario(a: &ShardArgs, idx: u64) {
                     }
                     let pv = &snapshot[&(t, want_i)];
                     if let Err(e) = agrees(m, pv, t, v) {
-                        let leaked = mirror.get(&(t, want_i)).map(|now| now != pv && agrees(m, now, t, v).is_ok()).unwrap_or(false);
-                        viol(if leaked { "update_leaked" } else { "wrong_value" }, &format!("t{t}|frag>1={}", frags.len() > 1), format!("type {t} index {want_i}: {e}"), &hist);
+                        let leaked = mirror
+                            .get(&(t, want_i))
+                            .map(|now| now != pv && agrees(m, now, t, v).is_ok())
+                            .unwrap_or(false);
+                        viol(
+                            if leaked {
+                                "update_leaked"
+                            } else {
+                                "wrong_value"
+                            },
+                            &format!("t{t}|frag>1={}", frags.len() > 1),
+                            format!("type {t} index {want_i}: {e}"),
+                            &hist,
+                        );
                         ok = false;
                         break 'headers;
                     }
@@ -512,7 +815,17 @@ async fn scenario(a: &ShardArgs, idx: u64) {
             }
         }
         if ok && complete && pos != objs.len() {
-            viol("extra_objects", "tail", format!("{} objects beyond what the request selects (e.g. {:?}[{}])", objs.len() - pos, objs[pos].ptype, objs[pos].index), &hist);
+            viol(
+                "extra_objects",
+                "tail",
+                format!(
+                    "{} objects beyond what the request selects (e.g. {:?}[{}])",
+                    objs.len() - pos,
+                    objs[pos].ptype,
+                    objs[pos].index
+                ),
+                &hist,
+            );
         } else if ok && complete {
             out::count("complete_series_ok", 1);
             if frags.len() > 1 {
@@ -521,10 +834,21 @@ async fn scenario(a: &ShardArgs, idx: u64) {
         } else if ok {
             out::count("partial_series_prefix_ok", 1);
         }
-        out::distinct(&format!("frags{}/{}/tx{}/hdrs{}", frags.len().min(5), ended_by, cfg.sol_tx, hdrs.len()));
+        out::distinct(&format!(
+            "frags{}/{}/tx{}/hdrs{}",
+            frags.len().min(5),
+            ended_by,
+            cfg.sol_tx,
+            hdrs.len()
+        ));
     }
     for p in crate::verif::util::take_panics() {
-        viol("panic", &crate::verif::util::norm_location(&p.location), format!("panic {} at {}", p.message, p.location), &hist);
+        viol(
+            "panic",
+            &crate::verif::util::norm_location(&p.location),
+            format!("panic {} at {}", p.message, p.location),
+            &hist,
+        );
     }
     if a.replay.is_some() {
         for h in &hist {
@@ -532,12 +856,18 @@ async fn scenario(a: &ShardArgs, idx: u64) {
         }
     }
     if out::sample_count() < 2 {
-        out::sample(J::obj(vec![("config", cfg.to_json()), ("history", J::arr(hist.iter().cloned()))]));
+        out::sample(J::obj(vec![
+            ("config", cfg.to_json()),
+            ("history", J::arr(hist.iter().cloned())),
+        ]));
     }
 }
 
 pub fn run(a: &ShardArgs) -> Result<(), String> {
-    let only: Option<u64> = a.replay.as_ref().and_then(|p| super::common::replay_scenario(p));
+    let only: Option<u64> = a
+        .replay
+        .as_ref()
+        .and_then(|p| super::common::replay_scenario(p));
     let n = a.n(5000);
     for idx in 0..n {
         if idx % a.nshards != a.shard {
